@@ -74,25 +74,31 @@ class RobotsTxtChecker(object):
             request = Request(url)
 
             session = self._web_client.session(request)
-            while not session.done():
-                if session.next_request().url_info.scheme not in (
-                        'http', 'https'):
-                    # Redirected to something that is not fetched over
-                    # HTTP (mailto:, javascript:, ...). There is no host
-                    # and port to connect to.
-                    self._accept_as_blank(url_info)
 
-                    return
+            # Leaving the block returns the connection to the pool, also
+            # when the fetch fails. Otherwise every failed fetch keeps one
+            # connection of the host checked out and, once the limit per
+            # host is reached, the next fetch waits forever.
+            with session:
+                while not session.done():
+                    if session.next_request().url_info.scheme not in (
+                            'http', 'https'):
+                        # Redirected to something that is not fetched over
+                        # HTTP (mailto:, javascript:, ...). There is no host
+                        # and port to connect to.
+                        self._accept_as_blank(url_info)
 
-                wpull.util.truncate_file(file.name)
+                        return
 
-                try:
-                    response = yield from session.start()
-                    yield from session.download(file=file)
-                except ProtocolError:
-                    self._accept_as_blank(url_info)
+                    wpull.util.truncate_file(file.name)
 
-                    return
+                    try:
+                        response = yield from session.start()
+                        yield from session.download(file=file)
+                    except ProtocolError:
+                        self._accept_as_blank(url_info)
+
+                        return
 
             status_code = response.status_code
 
